@@ -492,7 +492,9 @@ theorem bindT_keys : ∀ (t : Expr) (rt : Option TySet) (p : String × TySet), p
   | .compare .., rt, _, h => by cases rt <;> simp [bindT] at h
   | .ifexp .., rt, _, h => by cases rt <;> simp [bindT] at h
   | .lambda .., rt, _, h => by cases rt <;> simp [bindT] at h
-  | .starred .., rt, _, h => by cases rt <;> simp [bindT] at h
+  | .starred i v c, rt, p, h => by
+      have := bindT_keys v rt p (by cases rt <;> simpa [bindT] using h)
+      simpa [storedE] using this
   | .namedexpr .., rt, _, h => by cases rt <;> simp [bindT] at h
   | .comp .., rt, _, h => by cases rt <;> simp [bindT] at h
   | .comprehension .., rt, _, h => by cases rt <;> simp [bindT] at h
@@ -541,9 +543,13 @@ theorem bindT_sound (hT : Truthful R sem env) :
           exact hS.agree (bindL_agree es _ _ _ hl) (fun x hx => hu x (by simpa [untrackedT, storedE] using hx))
         | some T =>
           simp only [bindT]
-          refine bindTs_sound hT es T (R.value "int" "0") 0 vs vs σ σ' m hS (Or.inl (hrt T rfl)) (fun k u h => by simpa using h) hl ?_ ?_
-          · intro x hx; exact hu x (by simpa [untrackedT] using hx)
-          · simpa [storedE] using hsc
+          by_cases hstar : es.any isStarred = true
+          · have hall : ∀ x, x ∈ storedEs es → x ∈ S := fun x hx => hu x (by simp only [untrackedT, hstar, if_true]; exact hx)
+            exact (hS.agree (bindL_agree es _ _ _ hl) hall).update_tainted
+              (fun p hp => hall _ (bindTs_keys es T _ 0 p hp))
+          · refine bindTs_sound hT es T (R.value "int" "0") 0 vs vs σ σ' m hS (Or.inl (hrt T rfl)) (fun k u h => by simpa using h) hl ?_ ?_
+            · intro x hx; exact hu x (by simp only [untrackedT, hstar]; exact hx)
+            · simpa [storedE] using hsc
       | seqL hl =>
         rename_i vs
         cases rt with
@@ -552,9 +558,13 @@ theorem bindT_sound (hT : Truthful R sem env) :
           exact hS.agree (bindL_agree es _ _ _ hl) (fun x hx => hu x (by simpa [untrackedT, storedE] using hx))
         | some T =>
           simp only [bindT]
-          refine bindTs_sound hT es T (R.value "int" "0") 0 vs vs σ σ' m hS (Or.inr (hrt T rfl)) (fun k u h => by simpa using h) hl ?_ ?_
-          · intro x hx; exact hu x (by simpa [untrackedT] using hx)
-          · simpa [storedE] using hsc
+          by_cases hstar : es.any isStarred = true
+          · have hall : ∀ x, x ∈ storedEs es → x ∈ S := fun x hx => hu x (by simp only [untrackedT, hstar, if_true]; exact hx)
+            exact (hS.agree (bindL_agree es _ _ _ hl) hall).update_tainted
+              (fun p hp => hall _ (bindTs_keys es T _ 0 p hp))
+          · refine bindTs_sound hT es T (R.value "int" "0") 0 vs vs σ σ' m hS (Or.inr (hrt T rfl)) (fun k u h => by simpa using h) hl ?_ ?_
+            · intro x hx; exact hu x (by simp only [untrackedT, hstar]; exact hx)
+            · simpa [storedE] using hsc
       | inert h0 =>
         cases rt with
         | none => simpa [bindT, TMap.update_nil] using hS
@@ -579,7 +589,15 @@ theorem bindT_sound (hT : Truthful R sem env) :
   | .compare .., rt, _, _, _, _, hS, _, hb, _, _ => by cases hb; cases rt <;> simpa [bindT, TMap.update_nil] using hS
   | .ifexp .., rt, _, _, _, _, hS, _, hb, _, _ => by cases hb; cases rt <;> simpa [bindT, TMap.update_nil] using hS
   | .lambda .., rt, _, _, _, _, hS, _, hb, _, _ => by cases hb; cases rt <;> simpa [bindT, TMap.update_nil] using hS
-  | .starred .., rt, _, _, _, _, hS, _, hb, _, _ => by cases hb; cases rt <;> simpa [bindT, TMap.update_nil] using hS
+  | .starred i v c, rt, _, _, _, _, hS, _, hb, _, _ => by
+      cases hb with
+      | inert h0 =>
+        have hnil : bindT R rt (.starred i v c) = [] := by
+          apply List.eq_nil_iff_forall_not_mem.mpr
+          intro p hp
+          have := bindT_keys (R := R) (.starred i v c) rt p hp
+          simp [h0] at this
+        simpa [hnil, TMap.update_nil] using hS
   | .namedexpr .., rt, _, _, _, _, hS, _, hb, _, _ => by cases hb; cases rt <;> simpa [bindT, TMap.update_nil] using hS
   | .comp .., rt, _, _, _, _, hS, _, hb, _, _ => by cases hb; cases rt <;> simpa [bindT, TMap.update_nil] using hS
   | .comprehension .., rt, _, _, _, _, hS, _, hb, _, _ => by cases hb; cases rt <;> simpa [bindT, TMap.update_nil] using hS
@@ -808,7 +826,7 @@ theorem annE_justified : ∀ (e : Expr) (p : Nat × TySet), p ∈ annE R env tin
       · exact annEs_justified vars p h
   | .attr .., _, h => by simp [annE] at h
   | .lambda .., _, h => by simp [annE] at h
-  | .starred .., _, h => by simp [annE] at h
+  | .starred i v c, p, h => annE_justified v p (by simpa [annE] using h)
   | .namedexpr .., _, h => by simp [annE] at h
   | .comp .., _, h => by simp [annE] at h
   | .comprehension .., _, h => by simp [annE] at h
